@@ -43,20 +43,20 @@ def rdList16 (b : List Nat) (p : Nat) : Nat → Option (List Nat)
     pure (v :: rest)
 
 /-- `Cpal::read`: `none` = `Err(ReadError)` (`font.cpal()` fails: the table is dropped) -/
-def readHeader (b : List Nat) : Option Header := do
-  let version ← rd16 b 0
-  let numEntries ← rd16 b 2
-  let numPalettes ← rd16 b 4
-  let numColorRecords ← rd16 b 6
-  let recordsOffset ← rd32 b 8
-  let indices ← rdList16 b 12 numPalettes
-  let fin := 12 + 2 * numPalettes
-  if version ≥ 1 then
-    if fin + 12 ≤ b.length then
-      pure { version, numEntries, numPalettes, numColorRecords, recordsOffset, indices, v1Pos := some fin }
-    else none
-  else
-    pure { version, numEntries, numPalettes, numColorRecords, recordsOffset, indices, v1Pos := none }
+def readHeader (b : List Nat) : Option Header :=
+  match rd16 b 0, rd16 b 2, rd16 b 4, rd16 b 6, rd32 b 8 with
+  | some version, some numEntries, some numPalettes, some numColorRecords, some recordsOffset =>
+    match rdList16 b 12 numPalettes with
+    | some indices =>
+      let fin := 12 + 2 * numPalettes
+      if version ≥ 1 then
+        if fin + 12 ≤ b.length then
+          some { version, numEntries, numPalettes, numColorRecords, recordsOffset, indices, v1Pos := some fin }
+        else none
+      else
+        some { version, numEntries, numPalettes, numColorRecords, recordsOffset, indices, v1Pos := none }
+    | none => none
+  | _, _, _, _, _ => none
 
 /-- inner loop of `impl SubsetTable for &[ColorRecord]`: the records `first + e` for the retained
 entries `e`, in order; `self.get(record_idx)` = None ⇒ set_err(OTHER) -/
@@ -166,39 +166,43 @@ def subsetCpal (b : List Nat) (palettes : List (Nat × Nat)) : R (List Nat) := d
 
 /-- the colour of entry `entry` of palette `palette`:
 `color_records_array()[color_record_indices()[palette] + entry]` as (blue, green, red, alpha) -/
-def color (b : List Nat) (palette entry : Nat) : Option (List Nat) := do
-  let h ← readHeader b
-  if entry ≥ h.numEntries then none
-  let first ← h.indices[palette]?
-  if h.recordsOffset = 0 then none
-  let records ← slice b h.recordsOffset (4 * h.numColorRecords)
-  slice records (4 * (first + entry)) 4
+def color (b : List Nat) (palette entry : Nat) : Option (List Nat) :=
+  match readHeader b with
+  | none => none
+  | some h =>
+    if entry ≥ h.numEntries then none else
+    match h.indices[palette]? with
+    | none => none
+    | some first =>
+      if h.recordsOffset = 0 then none else
+      match slice b h.recordsOffset (4 * h.numColorRecords) with
+      | none => none
+      | some records => slice records (4 * (first + entry)) 4
+
+/-- one element of an optional version 1 array: the 32-bit offset field number `k` (0 types, 1 labels,
+2 entry labels) behind the header, an array of `count` elements of width `w` -/
+def v1Elem (b : List Nat) (k w : Nat) (count : Header → Nat) (i : Nat) : Option Nat :=
+  match readHeader b with
+  | none => none
+  | some h =>
+    match h.v1Pos with
+    | none => none
+    | some p =>
+      match rd32 b (p + 4 * k) with
+      | none => none
+      | some off =>
+        if off = 0 then none else
+        match slice b off (w * count h) with
+        | none => none
+        | some arr => rdN w arr (w * i)
 
 /-- `palette_entry_labels_array()[entry]` (`none` = no array / out of range) -/
-def entryLabel (b : List Nat) (entry : Nat) : Option Nat := do
-  let h ← readHeader b
-  let p ← h.v1Pos
-  let off ← rd32 b (p + 8)
-  if off = 0 then none
-  let arr ← slice b off (2 * h.numEntries)
-  rd16 arr (2 * entry)
+def entryLabel (b : List Nat) (entry : Nat) : Option Nat := v1Elem b 2 2 (·.numEntries) entry
 
 /-- `palette_types_array()[palette]` -/
-def paletteType (b : List Nat) (palette : Nat) : Option Nat := do
-  let h ← readHeader b
-  let p ← h.v1Pos
-  let off ← rd32 b p
-  if off = 0 then none
-  let arr ← slice b off (4 * h.numPalettes)
-  rd32 arr (4 * palette)
+def paletteType (b : List Nat) (palette : Nat) : Option Nat := v1Elem b 0 4 (·.numPalettes) palette
 
 /-- `palette_labels_array()[palette]` -/
-def paletteLabel (b : List Nat) (palette : Nat) : Option Nat := do
-  let h ← readHeader b
-  let p ← h.v1Pos
-  let off ← rd32 b (p + 4)
-  if off = 0 then none
-  let arr ← slice b off (2 * h.numPalettes)
-  rd16 arr (2 * palette)
+def paletteLabel (b : List Nat) (palette : Nat) : Option Nat := v1Elem b 1 2 (·.numPalettes) palette
 
 end FontVerif.SubsetCpal
